@@ -232,18 +232,18 @@ Proof. vm_compute. reflexivity. Qed.
 
 (* a bare keyword token that quote_ident(allow_reserved=False) lets through is not reserved,
    except the reserved __names__ (which no quoted form can express) *)
-Lemma bare_not_reserved : forall s an,
-  ql_needs_quoting U s false an = false -> ql_ident_dom s = true ->
+Lemma bare_not_reserved : forall s an apr,
+  ql_needs_quoting U s false an apr = false -> ql_ident_dom s = true ->
   ql_as_keyword s = true -> ql_kw_reserved s = true ->
   dunder (map ascii_lower s) = true.
 Proof.
-  intros s an Hn Hd Hk Hr. destruct s as [|c s]; [discriminate|].
+  intros s an apr Hn Hd Hk Hr. destruct s as [|c s]; [discriminate|].
   unfold ql_ident_dom in Hd.
   apply andb_true_iff in Hd as [Hd _]. apply andb_true_iff in Hd as [Hd _].
   apply andb_true_iff in Hd as [Hd Hco]. apply andb_true_iff in Hd as [H64 _].
   apply negb_true_iff in H64, Hco.
   unfold ql_needs_quoting, g_ql_bad_start, g_ql_bad_sub in Hn. rewrite H64, Hco in Hn. cbn [orb] in Hn.
-  apply orb_false_iff in Hn as [_ Hn]. cbn [negb andb] in Hn.
+  apply orb_false_iff in Hn as [Hn _]. apply orb_false_iff in Hn as [_ Hn]. cbn [negb andb] in Hn.
   rewrite (lower_ascii (c :: s)) in Hn by now apply as_keyword_ascii.
   unfold ql_kw_reserved in Hr. unfold ql_py_reserved in Hn. rewrite Hr in Hn. cbn [andb] in Hn.
   unfold g_ql_exempt_start, g_ql_exempt_end in Hn. fold (dunder (map ascii_lower (c :: s))) in Hn.
@@ -251,6 +251,21 @@ Proof.
   cbn [negb andb] in Hn. apply negb_false_iff in Hn.
   pose proof kw_partial_disjoint as D. rewrite forallb_forall in D.
   apply in_strs_iff in Hn. apply D in Hn. rewrite Hr in Hn. discriminate.
+Qed.
+
+(* with allow_partial_reserved=False a bare keyword token is not union / except / intersect *)
+Lemma bare_not_partial : forall s ar an,
+  ql_needs_quoting U s ar an false = false -> ql_ident_dom s = true ->
+  ql_as_keyword s = true -> in_strs (map ascii_lower s) g_kw_partial = false.
+Proof.
+  intros s ar an Hn Hd Hk. destruct s as [|c s]; [discriminate|].
+  unfold ql_ident_dom in Hd.
+  apply andb_true_iff in Hd as [Hd _]. apply andb_true_iff in Hd as [Hd _].
+  apply andb_true_iff in Hd as [Hd Hco]. apply andb_true_iff in Hd as [H64 _].
+  apply negb_true_iff in H64, Hco.
+  unfold ql_needs_quoting, g_ql_bad_start, g_ql_bad_sub in Hn. rewrite H64, Hco in Hn. cbn [orb] in Hn.
+  apply orb_false_iff in Hn as [_ Hn]. cbn [negb andb] in Hn.
+  now rewrite (lower_ascii (c :: s)) in Hn by now apply as_keyword_ascii.
 Qed.
 
 Theorem p_ql_ident_bare_name : forall s k,
@@ -332,21 +347,22 @@ Qed.
 
 (* ---- quote_ident, all flag combinations *)
 
-Theorem p_ql_quote_ident : forall force ar an s k,
+Theorem p_ql_quote_ident : forall force ar an apr s k,
   ql_ident_dom s = true -> ident_compat s = true -> num_compat s = true ->
   ql_num_boundary k = true ->
   (an = true -> dec_value s < 18446744073709551616) ->
-  exists t, ql_lex1 U (ql_quote_ident U force ar an s ++ k) = LexOk t k /\
+  exists t, ql_lex1 U (ql_quote_ident U force ar an apr s ++ k) = LexOk t k /\
     (t = TIdent s
-     \/ (t = TKeyword s /\ (ar = false -> ql_kw_reserved s = true -> dunder (map ascii_lower s) = true))
+     \/ (t = TKeyword s /\ (ar = false -> ql_kw_reserved s = true -> dunder (map ascii_lower s) = true)
+                        /\ (apr = false -> in_strs (map ascii_lower s) g_kw_partial = false))
      \/ (an = true /\ py_num_match U s = true /\ t = TInt (dec_value s))).
 Proof.
-  intros force ar an s k Hd Hc Hn Hk Hv.
+  intros force ar an apr s k Hd Hc Hn Hk Hv.
   assert (Hk' : ql_boundary k = true) by (unfold ql_num_boundary in Hk; now apply andb_true_iff in Hk as [? _]).
   assert (Hk96 : not_starting 96 k).
   { destruct k as [|d k]; cbn; auto.
     destruct (ql_boundary_cons d k Hk') as (B34 & B39 & B96 & B36 & Bn & Ba & Bd). now apply N.eqb_neq. }
-  unfold ql_quote_ident. destruct (force || ql_needs_quoting U s ar an) eqn:E.
+  unfold ql_quote_ident. destruct (force || ql_needs_quoting U s ar an apr) eqn:E.
   - exists (TIdent s). split; auto. now apply p_ql_ident_quoted.
   - apply orb_false_iff in E as [_ E].
     assert (Hdd := Hd). destruct s as [|c r]; [discriminate|].
@@ -356,12 +372,13 @@ Proof.
     apply negb_true_iff in H64, Hco, Hdu.
     assert (E' := E).
     unfold ql_needs_quoting, g_ql_bad_start, g_ql_bad_sub in E. rewrite H64, Hco in E. cbn [orb] in E.
-    apply orb_false_iff in E as [E1 E2]. apply negb_false_iff in E1.
+    apply orb_false_iff in E as [E E3]. apply orb_false_iff in E as [E1 E2]. apply negb_false_iff in E1.
     apply orb_true_iff in E1 as [E1|E1].
     + rewrite p_ql_ident_bare_name by auto.
       destruct (ql_as_keyword (c :: r)) eqn:Ek.
-      * eexists; split; [reflexivity|]. right; left. split; auto.
-        intros -> Hr. eapply bare_not_reserved; eauto.
+      * eexists; split; [reflexivity|]. right; left. split; [auto|split].
+        -- intros -> Hr. eapply bare_not_reserved; eauto.
+        -- intros ->. eapply bare_not_partial; eauto.
       * eexists; split; [reflexivity|]. auto.
     + apply andb_true_iff in E1 as [-> E1].
       rewrite p_ql_ident_bare_num by auto.
@@ -423,7 +440,7 @@ Proof.
   apply negb_true_iff in H64, H96, Hco, Hdu.
   unfold ql_param_to_str. cbn [prefix]. rewrite (N.eqb_sym 96 c), H96. cbn [andb].
   rewrite <- app_comm_cons. rewrite ql_lex1_dollar_eq.
-  unfold ql_quote_ident. cbn [orb]. destruct (ql_needs_quoting U (c :: r) true true) eqn:E.
+  unfold ql_quote_ident. cbn [orb]. destruct (ql_needs_quoting U (c :: r) true true true) eqn:E.
   - rewrite quote_raw_flat. rewrite <- app_comm_cons, <- app_assoc. cbn [app].
     unfold lex_dollar. cbn [N.eqb Pos.eqb]. rewrite scan_bt_body by auto.
     pose proof (contains2_bt 58 58 (c :: r)) as Hc2. rewrite Hco in Hc2.
@@ -434,7 +451,7 @@ Proof.
     assert (c' <> 64) by (apply N.eqb_neq in H64; destruct Hc' as [->|[-> ->]]; auto; lia).
     rewrite (eqb_neq_false c' 64) by auto. cbn [orb]. now rewrite Hu.
   - unfold ql_needs_quoting, g_ql_bad_start, g_ql_bad_sub in E. rewrite H64, Hco in E. cbn [orb] in E.
-    apply orb_false_iff in E as [E1 _]. apply negb_false_iff in E1. cbn [andb] in E1.
+    apply orb_false_iff in E as [E _]. apply orb_false_iff in E as [E1 _]. apply negb_false_iff in E1. cbn [andb] in E1.
     apply orb_true_iff in E1 as [E1|E1].
     + unfold py_ident_match in E1. apply andb_true_iff in E1 as [E1 Er].
       unfold param_compat in Hc. apply andb_true_iff in Hc as [Hc1 Hc2]. rewrite E1 in Hc1. cbn in Hc1.
